@@ -55,7 +55,10 @@ pub fn output_tokens_for_impl(
         .collect::<syn::Result<Vec<_>>>()?;
     let sub_attributes = analyze_sub_attributes(&attrs);
 
-    let trait_generics = generics_analyzer.into_trait_generics();
+    // The generics of the fns stay on the methods, as in the hand-written trait
+    let mut trait_generics = generics_analyzer.into_trait_generics();
+    trait_generics.params.clear();
+    trait_generics.where_predicates.clear();
 
     let fn_input_mode = crate::input::FnInputMode::ImplBlock(&self_ty);
     let trait_dependency_mode =
